@@ -67,25 +67,26 @@ def deliberate():
 
 def run(ck):
     thorough = ck.tier == "thorough"
+    binp = ck.gobuild("sharda")
+    world = su.detect_world(ck, binp)
     if not ck.replay and not os.environ.get("VERIF_SKIP_MODEL"):   # (dev aid for mutation runs: the model check does not depend on the tree)
-        ck.tlc_model("Shard", "Shard_C15t.cfg" if thorough else "Shard_C15.cfg", timeout=3000)
+        ck.tlc_model("Shard", "Shard_C15t.cfg" if thorough else "Shard_C15.cfg", timeout=3000, files=su.cfg_files(world, "Shard_C15t.cfg" if thorough else "Shard_C15.cfg"))
         ck.setcov("exhaustive", True)
         ck.setcov("constants", ("Objs={1,2 exp1,3 TS->1} wc=on batch=1 epochs 0..2, all ops, crash + flush fault" if thorough else
                                 "Objs={1 REG,2 REG exp 1} wc in {off,on} batch=1 epochs 0..2; Put Delete GC Flush Epoch MarkRed") +
                   " + crash after every micro-step")
-    binp = ck.gobuild("sharda")
     if ck.replay:
         scripts = [json.load(open(ck.replay))["replay"]["script"]]
     else:
         scripts = deliberate()
         for s in range(3 if thorough else 1):
-            scripts += ck.tlc_scripts("ShardGen", "ShardGen_C15.cfg", num=1200 if thorough else 90, depth=10,
+            scripts += ck.tlc_scripts("ShardGen", "ShardGen_C15.cfg", files=su.cfg_files(world, "ShardGen_C15.cfg"), num=1200 if thorough else 90, depth=10,
                                       seed=ck.seed * 10 + s, timeout=900)
     tp, info = su.run_scripts(ck, binp, scripts)
     ck.log("harness: %s" % info)
     if info.get("scripts", 0) - info.get("skipped", 0) < max(1, len(scripts) // 2):
         raise vkit.Infra("too many behaviours discarded: %s" % info)
-    v = su.validate(ck, "TraceShard_C15.cfg", tp)
+    v = su.validate(ck, "TraceShard_C15.cfg", tp, world=world)
     su.judge(ck, "C15", v, scripts, "C15",
              lambda cause: SIG.get(cause, "unlisted-cause:" + cause),
              lambda cause: "metabase reports an object available that can not be read (cause: %s)" % cause)
